@@ -4,6 +4,7 @@ Only the part of C16 that is visible in the shape of `get_route` and its helpers
 from engine import *
 import ordimpls
 import provenance
+import mutations
 import re as _re
 
 R = 'lightning::routing::router::'
@@ -771,3 +772,4 @@ RULES = [
 ]
 RULES.append(('16.t', 'identity comparisons: every reviewed (function, identity type) == / != comparison (HTLCSource, Txid, OutPoint, ChannelId, PaymentHash, PublicKey, ...) is still made - a function does not silently change what it matches by (rules/provenance.py)', lambda F: provenance.ids_for_property(F, 'C16', '16.t')))
 RULES.append(('16.R', 'state resets: every reviewed constant write to persistent state (flag = true / false, counter = 0, pending slot = None) of a function is still made (rules/provenance.py)', lambda F: provenance.flags_for_property(F, 'C16', '16.R')))
+RULES.append(('16.M', 'collection mutations: every reviewed (function, stored collection, mutator class: add / remove / filter / empty / swap / order) triple is still present - an entry that is no longer removed, inserted or drained on one path (rules/mutations.py)', lambda F: mutations.for_property(F, 'C16', '16.M')))
